@@ -35,7 +35,7 @@ theorem Conn.protoClose_closed (c : Conn P) :
   unfold Conn.protoClose
   split
   · next h => simp at h; simp [h]
-  · simp [Conn.lostCore]
+  · simp [Conn.lostCore, Conn.lostEnd]
 
 end Aio.C06
 
@@ -61,5 +61,174 @@ def hSurplusSameRead : List Op := [.request k0 false [], .recv 0 [1], .recv 0 [3
 def hEarly : List Op := [.request k0 false [4]]
 /-- response 0 followed, in the same read, by the first byte of another message -/
 def hPartialSurplus : List Op := [.request k0 false [], .recv 0 [4, 5], .request k0 false []]
+
+end Aio.C06
+
+/-! ## One connection under all histories: the op language of the inductive theorems -/
+namespace Aio.C06
+open Aio
+variable {P : Parser}
+
+/-- what can happen to one connection -/
+inductive COp where
+  /-- a request with key `k` by exchange `j` tries to take this connection (`_get` on a pooled
+  one, or first use of a new one) and, if it gets it, calls `set_response_params` -/
+  | acquire (k : Key) (j : Nat) (skip : Bool)
+  /-- the transport delivers bytes -/
+  | recv (data : Bytes)
+  /-- the holder's `protocol.read()` returns the queue head; `start()` registers the eof callback -/
+  | pop
+  /-- `Connection.release()` / `Connection.close()` by the holder -/
+  | release (explicit : Bool)
+  /-- peer closed / reset -/
+  | lost (os : Bool)
+  /-- time passes -/
+  | tick (d : Nat)
+
+structure CS (P : Parser) where
+  c : Conn P
+  now : Nat := 0
+  /-- ghost log: (exchange, provenance) of every head handed to a caller -/
+  heads : List (Nat × List Tag) := []
+
+structure CCfg where
+  fix : Bool
+  forceClose : Bool := false
+  keepalive : Nat := 120
+
+def cAcquire (g : CCfg) (s : CS P) (k : Key) (j : Nat) (skip : Bool) : CS P :=
+  let c := s.c
+  let r : Conn P × Bool :=
+    if c.pooled.isSome then c.tryAcquire k j s.now g.keepalive g.fix
+    else if c.owner.isNone && c.parser.isNone && c.connected && !(g.fix && c.shouldCloseProp)
+      then ({ c with owner := some j }, true) else (c, false)
+  if r.2 then { s with c := (r.1.setResponseParams s.now g.forceClose skip).1 } else { s with c := r.1 }
+
+def cstep (g : CCfg) (s : CS P) : COp → CS P
+  | .acquire k j skip => cAcquire g s k j skip
+  | .recv data =>
+    if s.c.connected then { s with c := (s.c.dataReceived s.now g.forceClose data [s.c.owner]).1 } else s
+  | .pop =>
+    match s.c.owner, s.c.popHead with
+    | some j, some (q, c') => { s with c := (c'.onEof s.now g.forceClose q.pay).1, heads := s.heads ++ [(j, q.prov)] }
+    | _, _ => s
+  | .release explicit =>
+    if s.c.owner.isSome then { s with c := s.c.release s.now g.forceClose explicit } else s
+  | .lost os => { s with c := (s.c.connectionLost os).1 }
+  | .tick d => { s with now := s.now + d }
+
+def crun (g : CCfg) (s : CS P) (ops : List COp) : CS P := ops.foldl (cstep g) s
+
+/-- the fields the head invariant talks about are untouched, the holder stays or goes -/
+structure Frame (c c' : Conn P) : Prop where
+  ptags : c'.ptags = c.ptags
+  tailTags : c'.tailTags = c.tailTags
+  buffer : c'.buffer = c.buffer
+  tail : c'.tail = c.tail
+  stale : c'.stale = c.stale
+  owner : c'.owner = c.owner ∨ c'.owner = none
+
+theorem Frame.rfl' (c : Conn P) : Frame c c := ⟨rfl, rfl, rfl, rfl, rfl, Or.inl rfl⟩
+theorem Frame.trans {a b c : Conn P} (h1 : Frame a b) (h2 : Frame b c) : Frame a c :=
+  ⟨h2.ptags.trans h1.ptags, h2.tailTags.trans h1.tailTags, h2.buffer.trans h1.buffer, h2.tail.trans h1.tail,
+   h2.stale.trans h1.stale, by
+    rcases h2.owner with h | h
+    · rcases h1.owner with h' | h'
+      · exact Or.inl (h.trans h')
+      · exact Or.inr (h.trans h')
+    · exact Or.inr h⟩
+
+theorem frame_modPay (c : Conn P) (p : Nat) (f : Pay → Pay) : Frame c (c.modPay p f) := by
+  unfold Conn.modPay; split <;> exact ⟨rfl, rfl, rfl, rfl, rfl, Or.inl rfl⟩
+theorem frame_payFail (c : Conn P) (p : Nat) (e : Exc) : Frame c (c.payFail p e) := frame_modPay _ _ _
+theorem frame_setException (c : Conn P) (e : Exc) : Frame c (c.setException e) :=
+  ⟨rfl, rfl, rfl, rfl, rfl, Or.inl rfl⟩
+
+theorem frame_evData (c : Conn P) (bs : Bytes) : Frame c (c.evData bs) := by
+  unfold Conn.evData; split
+  · exact frame_modPay _ _ _
+  · exact Frame.rfl' _
+
+theorem frame_evEofMark (c : Conn P) : Frame c c.evEofMark.1 := by
+  unfold Conn.evEofMark; split
+  · next p hp =>
+    have := frame_modPay c p (fun y => { y with eof := true, cb := false, prov := c.ptags })
+    exact ⟨this.ptags, this.tailTags, this.buffer, this.tail, this.stale, this.owner⟩
+  · exact Frame.rfl' _
+
+theorem frame_evPerr (c : Conn P) : Frame c c.evPerr := by
+  unfold Conn.evPerr; split
+  · next p hp =>
+    have := frame_payFail c p .payload
+    exact ⟨this.ptags, this.tailTags, this.buffer, this.tail, this.stale, this.owner⟩
+  · exact Frame.rfl' _
+
+theorem frame_applyEvCore (rel : Conn P → Conn P) (hrel : ∀ c, Frame c (rel c)) (c : Conn P) (r : Bool)
+    (ms : List (Msg × Option Nat)) (e : PEv) : Frame c (Conn.applyEvCore rel c r ms e).1 := by
+  cases e with
+  | msg m hp => cases hp <;> exact ⟨rfl, rfl, rfl, rfl, rfl, Or.inl rfl⟩
+  | data bs => exact frame_evData c bs
+  | eof =>
+    simp only [Conn.applyEvCore]
+    split
+    · exact (frame_evEofMark c).trans (hrel _)
+    · exact frame_evEofMark c
+  | perr => exact frame_evPerr c
+
+theorem frame_applyEvsCore (rel : Conn P → Conn P) (hrel : ∀ c, Frame c (rel c)) (evs : List PEv) (c : Conn P) (r : Bool)
+    (ms : List (Msg × Option Nat)) : Frame c (Conn.applyEvsCore rel c r ms evs).1 := by
+  induction evs generalizing c r ms with
+  | nil => exact Frame.rfl' _
+  | cons e es ih =>
+    unfold Conn.applyEvsCore
+    have h1 := frame_applyEvCore rel hrel c r ms e
+    rcases hx : Conn.applyEvCore rel c r ms e with ⟨c1, r1, ms1⟩
+    rw [hx] at h1
+    exact h1.trans (ih c1 r1 ms1)
+
+theorem frame_lostFeed (c : Conn P) : Frame c c.lostFeed.1 := by
+  unfold Conn.lostFeed
+  split
+  · have hrel : ∀ c : Conn P, Frame c ({ c with owner := none } : Conn P) :=
+      fun c => ⟨rfl, rfl, rfl, rfl, rfl, Or.inr rfl⟩
+    exact frame_applyEvsCore (fun c => ({ c with owner := none } : Conn P)) hrel _ _ _ _
+  · exact Frame.rfl' _
+
+theorem frame_lostFail (c : Conn P) (r : Bool) : Frame c (c.lostFail r) := by
+  unfold Conn.lostFail
+  split
+  · split
+    · exact frame_payFail _ _ _
+    · exact Frame.rfl' _
+  · exact Frame.rfl' _
+
+theorem frame_lostExc (c : Conn P) (os : Bool) : Frame c (c.lostExc os) := by
+  unfold Conn.lostExc
+  split
+  · exact frame_setException _ _
+  · exact Frame.rfl' _
+
+theorem frame_lostEnd (c : Conn P) : Frame c c.lostEnd := ⟨rfl, rfl, rfl, rfl, rfl, Or.inl rfl⟩
+
+theorem frame_lostCore (c : Conn P) (os : Bool) : Frame c (c.lostCore os).1 := by
+  unfold Conn.lostCore
+  exact (((frame_lostFeed c).trans (frame_lostFail _ _)).trans (frame_lostExc _ _)).trans (frame_lostEnd _)
+
+theorem frame_protoClose (c : Conn P) : Frame c c.protoClose := by
+  unfold Conn.protoClose
+  split
+  · exact ⟨rfl, rfl, rfl, rfl, rfl, Or.inl rfl⟩
+  · have := frame_lostCore { c with exc := none, payload := none, connected := false } false
+    exact ⟨this.ptags, this.tailTags, this.buffer, this.tail, this.stale, this.owner⟩
+
+theorem frame_release (c : Conn P) (now : Nat) (fc ex : Bool) :
+    Frame c (c.release now fc ex) ∧ (c.release now fc ex).owner = none := by
+  unfold Conn.release Conn.releaseCore
+  split
+  · have := frame_protoClose { c with owner := none }
+    have ho : (Conn.protoClose { c with owner := none }).owner = none := by
+      rcases this.owner with h | h <;> simpa using h
+    exact ⟨⟨this.ptags, this.tailTags, this.buffer, this.tail, this.stale, Or.inr ho⟩, ho⟩
+  · exact ⟨⟨rfl, rfl, rfl, rfl, rfl, Or.inr rfl⟩, rfl⟩
 
 end Aio.C06
